@@ -8,11 +8,7 @@ HERE = os.path.dirname(os.path.dirname(os.path.abspath(__file__)))
 sys.path.insert(0, HERE)
 from sa import props  # noqa: E402
 
-NA = {
-    "C06": "Every clause quantifies over numerical trajectories of a delegated ODE solver (tolerances, sign and bound "
-           "inequalities between runtime concentrations); no structural fact of chempy's source is a necessary condition "
-           "that C03/C04/C05/C15 do not already decide. Static analysis cannot bound these runtime quantities (DESIGN.md section 4).",
-}
+NA = {}
 
 ENGINES = [
     dict(name="E0 core", path="sa/core.py", kind_free_text="repository model (ast), anchors by qualified name, rule context, evidence, known findings"),
